@@ -788,6 +788,13 @@ func (h *histState) doFilter(i int, op *Op) {
 		return
 	}
 	h.checks++
+	if len(op.Opts.Profiles) > 0 {
+		h.ctr.inc("filter_with_profile")
+		if name, ok := profilesIntact(); !ok {
+			h.violate(Violation{Property: "C08", Class: "profile_mutated", Op: i, Site: name,
+				Detail: "after a Filter whose options had a profile added (AddProfile), the registered profile " + name + " no longer lists the lint names it was registered with"})
+		}
+	}
 	if v.Err {
 		h.ctr.inc("filter_error_expected")
 		if ferr == nil {
@@ -847,7 +854,7 @@ func filterShape(o *FilterOpts, v filterVerdict) string {
 		}
 		return "0"
 	}
-	return "re" + b(o.NameFilter != nil) + "in" + b(len(o.IncludeNames) > 0) + "ex" + b(len(o.ExcludeNames) > 0) +
+	return "re" + b(o.NameFilter != nil) + "in" + b(len(o.IncludeNames) > 0) + "pr" + b(len(o.Profiles) > 0) + "ex" + b(len(o.ExcludeNames) > 0) +
 		"is" + b(len(o.IncludeSources) > 0) + "es" + b(len(o.ExcludeSources) > 0) + "err" + b(v.Err) + "empty" + b(len(v.Sel) == 0)
 }
 
